@@ -20,7 +20,7 @@ const CORPUS: &[(&str, &str)] = &[
     ("\\d*", ""), ("x*", ""), ("", ""), ("\\b", ""), ("^", "m"), ("$", ""), ("a|", ""), ("(?=.)", ""), ("é*", ""), ("𝒳*", "u"),
     ("\\d+", ""), ("\\s+", ""), ("[ab]", ""), ("a.c", ""), ("\"[^\"]*\"", ""), ("aa", ""), ("..", ""), ("(?<=a)b", ""), ("\\w+", "u"), ("(a)|(b)", ""),
 ];
-const HAYS: &[&str] = &["ab12cd", "", "x", "é", "𝒳é𝒳", "€a€", "aア", "1€", "a \"b\" c \"d\" e \"f\" g", "aaaaaaaaaaaaaaaaaaaaa", "1𝒳1é1é \n𝒳", "ab\ncd\n", "ßaab 12 éé"];
+const HAYS: &[&str] = &["ab12cd", "", "x", "é", "𝒳é𝒳", "€a€", "aア", "1€", "a \"b\" c \"d\" e \"f\" g", "aaaaaaaaaaaaaaaaaaaaa", "1𝒳1é1é \n𝒳", "ab\ncd\n", "ßaab 12 éé", "жa1א", "\u{7ff}1\u{800}", "\u{d7ff}a\u{e000}\u{ffff}", "\u{10000}1\u{10ffff}\u{80}"];
 
 fn check(ok: bool, what: &str) {
     if !ok {
